@@ -16,7 +16,7 @@ PROPS = {
     'formulas/ranges.py': ['C06', 'C05', 'C04'], 'formulas/cell.py': ['C10', 'C13', 'C14', 'C05', 'C09'],
     'formulas/excel/__init__.py': ['C09', 'C10', 'C13', 'C14'], 'formulas/excel/cycle.py': ['C10'],
     'formulas/functions/__init__.py': ['C05', 'C11', 'C12', 'C19', 'C02', 'C13', 'C14'], 'formulas/functions/operators.py': ['C02', 'C01', 'C06'],
-    'formulas/functions/look.py': ['C19', 'C11', 'C02'], 'formulas/functions/math.py': ['C12', 'C13', 'C11', 'C19'],
+    'formulas/functions/look.py': ['C19', 'C11', 'C02'], 'formulas/functions/math.py': ['C12', 'C20', 'C13', 'C11', 'C19'],
     'formulas/functions/stat.py': ['C12', 'C19', 'C11'], 'formulas/functions/text.py': ['C12', 'C02', 'C11'],
     'formulas/functions/logic.py': ['C12', 'C10', 'C11'], 'formulas/functions/info.py': ['C12', 'C11'],
     'formulas/functions/date.py': ['C20', 'C13', 'C11', 'C05'], 'formulas/functions/eng.py': ['C20', 'C11'],
